@@ -26,7 +26,7 @@ CHECKS = {
                      "answer, full (n, m) grid, returned loss minimal (losses named at the source, linear order query) and equal to the squared "
                      "error on caller data, best-of over 4 (thorough 9) VLE methods, value and scaling formulas up to order 2 (thorough 3)"),
     "C05": ("5 C05", "two non-ideal process models (N = 3, thorough 4) and the non-ideal curve with the best-fit search as a recording stub "
-                     "returning symbolic coefficient arrays, 1 and 2 curves, with / without initial permeances, both initial bases: search called "
+                     "returning symbolic coefficient arrays, 1 and 2 curves, with / without initial permeances (kg, SI, GPU), both initial bases: search called "
                      "once per component on that component's measurements; returned fits = search results or their Arrhenius re-scaling "
                      "(exp-normal form + EXP congruence); permeances[k] = fit(x_k | x_(k-1), T_k) x step-0 factor"),
     "C06": ("5 C06", "relational: run vs relabelled twin in one exploration.  Activity models for real (NRTL fully symbolic, UNIQUAC per built-in "
@@ -37,7 +37,7 @@ CHECKS = {
                      "(N = 1 step / point; thorough also 2): every leaf raises a repository exception; 9 incomplete-specification classes "
                      "likewise; vacuity twins with valid specifications must return"),
     "C12": ("5 C12", "Membrane.get_permeance / calculate_activation_energy with n = 1..3 (thorough 4) symbolic experiments per component in any "
-                     "order and unit, energy stated / stated per experiment / regressed (lstsq by its normal equations): Arrhenius factor of the "
+                     "order and unit, energy stated / stated per experiment / mixed stated-unstated / regressed (lstsq by its normal equations): Arrhenius factor of the "
                      "nearest experiment, measured value at experiment temperatures, regression recovers E on a line, independence of the "
                      "reference experiment; selectivity M2/M1 law; pure-component flux per mode and its rejection of a double specification"),
     "C10": ("5 C10", "ranking argument on the loop extracted from the AST of the current source (one iteration from a havocked head, callee "
@@ -45,7 +45,7 @@ CHECKS = {
                      "model) + solver-found 2-cycles of the permeate-pressure map replayed on the real code under a counting wrapper; every "
                      "other `while` / recursion in the package is reported as unanalysed"),
     "C09": ("5 C09", "driving-force function at a symbolic self-consistent permeate composed with the real DiffusionCurve constructor "
-                     "(3 modes x 2 feed bases): reported permeances = the ones used; curve from permeances in kg/SI/GPU: exposure in kg units, "
+                     "(3 modes x 2 feed bases): reported permeances = the ones used; curve from permeances (alone, or together with fluxes) in kg/SI/GPU: exposure in kg units, "
                      "fluxes = P x feed pressure, re-inversion; the permeate-pressure basis mismatch is a characterised known finding"),
     "C07": ("5 C07", "relational: each entry point run with Composition(x_of_w(w), molar) and Composition(w, weight) in one exploration "
                      "(flux solver + helpers + one-point curve and metrics with the real loop, K = 1 (thorough 2); four process models N = 2 "
@@ -60,15 +60,15 @@ CHECKS = {
                      "returning leaf no reported state can be inadmissible (feed mass, temperature, fractions); replay with coarse real runs"),
     "C01": ("5 C01", "4 process models x 3 permeate modes x {mass, mole} initial basis x programme kinds x curve-set shapes, N = 1,3 steps "
                      "(thorough 1..5) with the flux solver / permeance / heats / best-fit search as arbitrary functions: series lengths, "
-                     "time grid, initial state, reported fluxes, total and first-component balance per step"),
+                     "time grid, initial state, reported fluxes, total and first-component balance per step; plus concrete real-code runs at step lengths that are not exact in binary (float time grid)"),
     "C03": ("5 C03", "same lifted process runs: evaporation heat = sum of permeated mass x own latent heat per kg, self-cooling update, "
-                     "programme value at k dt (3 programme kinds, real TemperatureProgram code), isothermal constancy, condensation heat "
+                     "programme value at k dt (3 programme kinds with 5 symbolic coefficients, real TemperatureProgram code), isothermal constancy, condensation heat "
                      "reported iff a permeate temperature is given, isothermal/non-isothermal twin at step 0 (relational, congruence)"),
     "C02": ("5 C02", "flux solver unrolled to K loop iterations (quick 2, thorough 4) for 3 permeate modes x 2 activity models, activity "
                      "coefficients and saturation pressures as uninterpreted functions: law at a self-consistent iterate, vacuum / zero-pressure "
                      "/ fixed-pressure identities, permeance scaling (relational, with congruence)"),
     "C04": ("5 C04", "Gibbs-Duhem as a division-free polynomial non-vanishing query after symbolic differentiation of the executed ln gamma "
-                     "(NRTL fully symbolic, 4 parameter shapes; UNIQUAC per built-in mixture with exact component constants), pure limits, "
+                     "(NRTL fully symbolic, 4 parameter shapes; UNIQUAC with exact component constants of the 8 built-in mixtures, their relabelled twins and 2 synthetic q'=q sets), pure limits, "
                      "Raoult, partial-pressure law and basis independence; the UNIQUAC gamma_2 defect is a characterised known finding"),
     "C13": ("5 C13", "unbounded: Clausius-Clapeyron for Antoine and Frost with symbolic constants (symbolic d/dT of the executed ln P), "
                      "cooling-heat additivity / antisymmetry / zero / derivative identities"),
